@@ -266,3 +266,56 @@ func vh_routing_key_info() {
 	vAssert(kerr == nil && refBytesEq(key, want), "C09/routing-info/composite-key-in-partition-key-order")
 	vObserve("n", len(key))
 }
+
+// Query.GetRoutingKey as the token-aware policy calls it: for every attempt and after every
+// (re)Bind the key is the one of the CURRENT bound values; an explicit RoutingKey wins; a
+// Session.Bind query without values has none.
+var vRKInfo *routingKeyInfo
+
+func vstubRoutingKeyInfo(s *Session, ctx context.Context, stmt string) (*routingKeyInfo, error) {
+	if vBool("rki_fails") {
+		return nil, vErrIO
+	}
+	return vRKInfo, nil
+}
+
+func vh_get_routing_key() {
+	s := &Session{}
+	vRKInfo = &routingKeyInfo{indexes: []int{1}, types: []TypeInfo{NativeType{proto: 4, typ: TypeInt}}, keyspace: "ks", table: "tbl"}
+	if vBool("no_info") {
+		vRKInfo = nil
+	}
+	v1, v2 := vI32("v1"), vI32("v2")
+	q := &Query{session: s, stmt: "SELECT x FROM tbl WHERE a = ? AND k = ?", routingInfo: &queryRoutingInfo{}}
+	q.Bind("a", v1)
+	k1, e1 := q.GetRoutingKey()
+	k1b, e1b := q.GetRoutingKey()
+	if e1 == nil && vRKInfo != nil {
+		vAssert(refBytesSame(k1, refBE(int64(v1), 4)), "C09/query-routing-key/is-the-key-of-the-bound-values")
+		vAssert(q.Keyspace() == "ks" && q.Table() == "tbl", "C09/query-routing-key/keyspace-and-table-from-the-statement")
+	}
+	if e1 == nil && vRKInfo == nil {
+		vAssert(k1 == nil, "C09/query-routing-key/none-without-routing-info")
+	}
+	if e1 == nil && e1b == nil {
+		vAssert(refBytesSame(k1b, k1), "C09/query-routing-key/same-for-every-attempt")
+	}
+	// the query is reused with other values
+	q.Bind("a", v2)
+	k2, e2 := q.GetRoutingKey()
+	if e2 == nil && vRKInfo != nil {
+		vAssert(refBytesSame(k2, refBE(int64(v2), 4)), "C09/query-routing-key/follows-a-rebind")
+	}
+	// an explicit key wins over the computed one
+	rk := vBytes("rk", 2)
+	if len(rk) > 0 {
+		q.RoutingKey(rk)
+		k3, e3 := q.GetRoutingKey()
+		vAssert(e3 == nil && refBytesSame(k3, rk), "C09/query-routing-key/explicit-key-wins")
+	}
+	// Session.Bind style query: values come later
+	qb := &Query{session: s, stmt: "x", routingInfo: &queryRoutingInfo{}, binding: func(*QueryInfo) ([]interface{}, error) { return nil, nil }}
+	k4, e4 := qb.GetRoutingKey()
+	vAssert(k4 == nil && e4 == nil, "C09/query-routing-key/none-before-binding-values-exist")
+	vObserve("e1", e1 == nil)
+}
